@@ -34,7 +34,7 @@ Proof.
   cbn [sel sel_reads] in *. rewrite getn_setn.
   destruct ((c =? id) && (0 <=? id) && (id <? zlen h)) eqn:E.
   - exfalso. apply Hn. left. lia.
-  - destruct (getn h c) as [n|]; [|reflexivity].
+  - destruct (getn h c) as [n|]; [|reflexivity]. destruct (is_dis n); [reflexivity|]. unfold sel_node.
     destruct (nk n); try reflexivity.
     + apply existsb_ext_in. intros x Hx. apply IH. intros Hin. apply Hn. right. apply in_flat_map. exists x. split; assumption.
     + apply IH. intros Hin. apply Hn. right. exact Hin.
@@ -42,18 +42,19 @@ Qed.
 
 (* a write that keeps the kind, the leaf data, the cache, the contents and the parts keeps selectable() everywhere *)
 Definition sel_same_node (n m : node) : Prop :=
-  nk m = nk n /\ n_sel m = n_sel n /\ n_selc m = n_selc n /\ items m = items n /\ n_a m = n_a n.
+  nk m = nk n /\ n_sel m = n_sel n /\ n_selc m = n_selc n /\ items m = items n /\ n_a m = n_a n /\ n_deco m = n_deco n.
 
 Lemma sel_setn_same f : forall h id n m c, getn h id = Some n -> sel_same_node n m -> sel f (setn h id m) c = sel f h c.
 Proof.
   induction f as [|f IH]; intros h id n m c G Hs; [reflexivity|].
   cbn [sel]. rewrite getn_setn.
   destruct ((c =? id) && (0 <=? id) && (id <? zlen h)) eqn:E.
-  - assert (c = id) by lia. subst c. rewrite G. destruct Hs as (Hk & H1 & H2 & H3 & H4).
+  - assert (c = id) by lia. subst c. rewrite G. pose proof Hs as Hs0. destruct Hs as (Hk & H1 & H2 & H3 & H4 & H5).
+    unfold is_dis. rewrite H5. destruct (n_deco n =? 2); [reflexivity|]. unfold sel_node.
     rewrite Hk. destruct (nk n) eqn:Kn; try reflexivity; try assumption.
-    + rewrite H3. apply existsb_ext_in. intros x _. eapply IH; [exact G|]. assert (Hk' : nk m = nk n) by congruence. exact (conj Hk' (conj H1 (conj H2 (conj H3 H4)))).
-    + rewrite H4. eapply IH; [exact G|]. assert (Hk' : nk m = nk n) by congruence. exact (conj Hk' (conj H1 (conj H2 (conj H3 H4)))).
-  - destruct (getn h c) as [k|]; [|reflexivity]. destruct (nk k); try reflexivity.
+    + rewrite H3. apply existsb_ext_in. intros x _. eapply IH; [exact G|exact Hs0].
+    + rewrite H4. eapply IH; [exact G|exact Hs0].
+  - destruct (getn h c) as [k|]; [|reflexivity]. destruct (is_dis k); [reflexivity|]. unfold sel_node. destruct (nk k); try reflexivity.
     + apply existsb_ext_in. intros x _. eapply IH; eauto.
     + eapply IH; eauto.
 Qed.
@@ -98,5 +99,5 @@ Qed.
 
 (* GridFlow.selectable() is computed from the contents at every call *)
 Theorem grid_selectable_iff_child f h id n :
-  getn h id = Some n -> nk n = KGrid -> sel (S f) h id = existsb (sel f h) (items n).
-Proof. intros G K. cbn [sel]. rewrite G, K. reflexivity. Qed.
+  getn h id = Some n -> nk n = KGrid -> sel_own (S f) h id = existsb (sel f h) (items n).
+Proof. intros G K. unfold sel_own, sel_node. rewrite G, K. reflexivity. Qed.
